@@ -583,25 +583,56 @@ def selectRev : List ATy → List Bool → Bool → List ATy
   | t :: ts, f :: fs, want => selectRev ts fs want ++ (if f == want then [t] else [])
   | _, _, _ => []
 
-/-- `copy_ret_buffer(var)` with `var->offset = off` -/
-def copyRetBufferLines (ty : ATy) (off : Int) : List String :=
+/-- the register moves and memory accesses of `copy_struct_reg` (callee) and `copy_ret_buffer` (caller), structured: what is
+    loaded from / stored to which byte offset of the returned object.  The text functions below are their rendering. -/
+inductive RetOp where
+  | saveAddr                                          -- `mov %rax, %rdi`
+  | fpLoad (width off xmm : Nat)                      -- `movss` / `movsd off(%rdi), %xmmN`: `width` (4 / 8) bytes at `off`
+  | zero (reg2 : String)                              -- `mov $0, reg2`
+  | byteLoad (off : Nat) (reg1 reg2 : String)         -- `shl $8, reg2; mov off(%rdi), reg1`: one byte at `off`
+  | fpStore (width xmm off : Nat)                     -- `movss` / `movsd %xmmN, (base+off)(%rbp)`
+  | byteStore (off : Nat) (reg1 reg2 : String)        -- `mov reg1, (base+off)(%rbp); shr $8, reg2`
+  deriving DecidableEq, Repr
+
+/-- the byte offsets of the object an operation reads or writes -/
+def RetOp.bytes : RetOp → List Nat
+  | .fpLoad w off _ => (List.range w).map (· + off)
+  | .byteLoad off _ _ => [off]
+  | .fpStore w _ off => (List.range w).map (· + off)
+  | .byteStore off _ _ => [off]
+  | _ => []
+
+/-- the lines an operation prints; `base` = `var->offset` of the return buffer (stores only) -/
+def RetOp.lines (base : Int) : RetOp → List String
+  | .saveAddr => ["  mov %rax, %rdi"]
+  | .fpLoad w off n =>
+    [(if w = 4 then "  movss " else "  movsd ") ++ (if off = 0 then "" else toString off) ++ s!"(%rdi), %xmm{n}"]
+  | .zero r => [s!"  mov $0, {r}"]
+  | .byteLoad i r1 r2 => [s!"  shl $8, {r2}", s!"  mov {i}(%rdi), {r1}"]
+  | .fpStore w n off => [(if w = 4 then "  movss " else "  movsd ") ++ s!"%xmm{n}, {base + off}(%rbp)"]
+  | .byteStore i r1 r2 => [s!"  mov {r1}, {base + i}(%rbp)", s!"  shr $8, {r2}"]
+
+/-- `copy_ret_buffer(var)`: the stores into the return buffer -/
+def copyRetBufferOps (ty : ATy) : List RetOp :=
   let sz := ty.size
   if sz = 0 then [] else
   let first :=
-    if hasFlonum1 ty then [if sz = 4 then s!"  movss %xmm0, {off}(%rbp)" else s!"  movsd %xmm0, {off}(%rbp)"]
-    else (countUp (min 8 sz)).flatMap (fun (i : Nat) => [s!"  mov %al, {off + i}(%rbp)", "  shr $8, %rax"])
+    if hasFlonum1 ty then [RetOp.fpStore (if sz = 4 then 4 else 8) 0 0]
+    else (countUp (min 8 sz)).map (fun (i : Nat) => RetOp.byteStore i "%al" "%rax")
   let gp := if hasFlonum1 ty then 0 else 1
   let fp := if hasFlonum1 ty then 1 else 0
   let second :=
     if sz > 8 then
-      if hasFlonum2 ty then
-        [if sz = 12 then s!"  movss %xmm{fp}, {off + 8}(%rbp)" else s!"  movsd %xmm{fp}, {off + 8}(%rbp)"]
+      if hasFlonum2 ty then [RetOp.fpStore (if sz = 12 then 4 else 8) fp 8]
       else
         let reg1 := if gp = 0 then "%al" else "%dl"
         let reg2 := if gp = 0 then "%rax" else "%rdx"
-        ((countUp (min 16 sz)).filter (· ≥ 8)).flatMap (fun (i : Nat) => [s!"  mov {reg1}, {off + i}(%rbp)", s!"  shr $8, {reg2}"])
+        ((countUp (min 16 sz)).filter (· ≥ 8)).map (fun (i : Nat) => RetOp.byteStore i reg1 reg2)
     else []
   first ++ second
+
+/-- `copy_ret_buffer(var)` with `var->offset = off` -/
+def copyRetBufferLines (ty : ATy) (off : Int) : List String := (copyRetBufferOps ty).flatMap (RetOp.lines off)
 
 /-- the lines of one `ND_FUNCALL` that manipulate the stack and the argument registers (argument evaluation itself,
     `gen_expr(node->lhs)` and `.loc` lines left out).  `retOff` = `node->ret_buffer->offset`. -/
@@ -670,24 +701,27 @@ def paramOffsets (s : Sig) : List Int :=
   let (_, _, poffs, _) := calleeFrame s
   if retLarge s.ret then poffs.drop 1 else poffs
 
-/-- `copy_struct_reg()` -/
-def copyStructRegLines (ty : ATy) : List String :=
+/-- `copy_struct_reg()`: the loads from the returned object (its address is in %rax) -/
+def copyStructRegOps (ty : ATy) : List RetOp :=
   let sz := ty.size
   if sz = 0 then [] else
   let first :=
-    if hasFlonum ty 0 8 0 then [if sz = 4 then "  movss (%rdi), %xmm0" else "  movsd (%rdi), %xmm0"]
-    else "  mov $0, %rax" :: (countDown (min 8 sz) 0).flatMap (fun (i : Nat) => ["  shl $8, %rax", s!"  mov {i}(%rdi), %al"])
+    if hasFlonum ty 0 8 0 then [RetOp.fpLoad (if sz = 4 then 4 else 8) 0 0]
+    else RetOp.zero "%rax" :: (countDown (min 8 sz) 0).map (fun (i : Nat) => RetOp.byteLoad i "%al" "%rax")
   let gp := if hasFlonum ty 0 8 0 then 0 else 1
   let fp := if hasFlonum ty 0 8 0 then 1 else 0
   let second :=
     if sz > 8 then
-      if hasFlonum ty 8 16 0 then [if sz = 12 then s!"  movss 8(%rdi), %xmm{fp}" else s!"  movsd 8(%rdi), %xmm{fp}"]
+      if hasFlonum ty 8 16 0 then [RetOp.fpLoad (if sz = 12 then 4 else 8) 8 fp]      -- /repo 7826748 (was `sz = 4`)
       else
         let reg1 := if gp = 0 then "%al" else "%dl"
         let reg2 := if gp = 0 then "%rax" else "%rdx"
-        s!"  mov $0, {reg2}" :: (countDown (min 16 sz) 8).flatMap (fun (i : Nat) => [s!"  shl $8, {reg2}", s!"  mov {i}(%rdi), {reg1}"])
+        RetOp.zero reg2 :: (countDown (min 16 sz) 8).map (fun (i : Nat) => RetOp.byteLoad i reg1 reg2)
     else []
-  "  mov %rax, %rdi" :: (first ++ second)
+  RetOp.saveAddr :: (first ++ second)
+
+/-- `copy_struct_reg()` -/
+def copyStructRegLines (ty : ATy) : List String := (copyStructRegOps ty).flatMap (RetOp.lines 0)
 
 /-- the lines `ND_RETURN` adds after `gen_expr(node->lhs)` for a struct/union value -/
 def returnLines (s : Sig) : List String :=
